@@ -198,7 +198,7 @@ def run(res, tier, seed):
                 m = build(ast)
         except Exception as e:
             res.count("build_error:" + type(e).__name__); continue
-        if is_var(m):
+        if isinstance(m, str) or is_var(m):
             continue
         if m.errors():
             res.count("skipped_invalid"); continue
